@@ -1,5 +1,5 @@
 From Coq Require Import ZArith NArith List Bool.
-From CL Require Import Base.Sx Base.Res Model.LineCol.
+From CL Require Import Base.Sx Base.Res Model.LineCol Model.LineColDtd.
 Import ListNotations.
 Open Scope Z_scope.
 
@@ -14,6 +14,10 @@ Definition dispatch (f : Z) (x : sx) : sx :=
       let s := to_str (nth_sx 0 x) in
       of_list (fun p => of_option (of_pair of_nat of_nat) (linecol s p))
               (seq 0 (S (to_nat (nth_sx 1 x))))
+  | 3 => (* DTD tuple arm: [s; val_start; line_pos; col_pos] *)
+      of_option (of_pair of_nat of_nat)
+        (dtd_value_position (to_str (nth_sx 0 x)) (to_nat (nth_sx 1 x))
+                            (to_nat (nth_sx 2 x)) (to_nat (nth_sx 3 x)))
   | _ => sx_err
   end.
 
